@@ -235,7 +235,7 @@ def run_impl(ctx, script, payload, timeout=1200, env_extra=None, python=PY):
         return {"_crash": True, "rc": 0, "stderr": "unparsable output: %r ... %s" % (p.stdout[-500:], p.stderr[-1500:])}
 
 
-def run_impl_parallel(ctx, script, cases, nchunks=None, timeout=1200, env_extra=None, key="cases"):
+def run_impl_parallel(ctx, script, cases, nchunks=None, timeout=1200, env_extra=None, key="cases", extra_payload=None):
     """Split cases into chunks, run each chunk in its own interpreter; returns list of per-case results
     (same order) — a crashed chunk yields {'_crash':...} for each of its cases."""
     from concurrent.futures import ThreadPoolExecutor
@@ -244,7 +244,7 @@ def run_impl_parallel(ctx, script, cases, nchunks=None, timeout=1200, env_extra=
     n = nchunks or min(NCPU, max(1, len(cases) // 4))
     chunks = [cases[i::n] for i in range(n)]
     with ThreadPoolExecutor(max_workers=n) as ex:
-        outs = list(ex.map(lambda ch: run_impl(ctx, script, {key: ch}, timeout, env_extra), chunks))
+        outs = list(ex.map(lambda ch: run_impl(ctx, script, dict(extra_payload or {}, **{key: ch}), timeout, env_extra), chunks))
     res = [None] * len(cases)
     for ci, (ch, out) in enumerate(zip(chunks, outs)):
         if out.get("_crash"):
